@@ -149,18 +149,18 @@ fn run(new_model: bool, max_args: usize) {
 }
 
 proof! {
-    #[kani::unwind(8)]
+    #[kani::unwind(10)]
     fn c09_unknown_legacy_2args() { run(false, 2); }
 }
 proof! {
-    #[kani::unwind(8)]
+    #[kani::unwind(10)]
     fn c09_unknown_newmodel_2args() { run(true, 2); }
 }
 proof! {
-    #[kani::unwind(8)]
+    #[kani::unwind(10)]
     fn c09_unknown_legacy_3args() { run(false, 3); }
 }
 proof! {
-    #[kani::unwind(8)]
+    #[kani::unwind(10)]
     fn c09_unknown_newmodel_3args() { run(true, 3); }
 }
